@@ -1,3 +1,355 @@
-import Banyan.Model.C18
+/-
+C18 — Properties are last-writer-wins and replicas converge.
+Property theorems only (about the model in Banyan/Model/C18.lean, which mirrors the code WITH fix F18a);
+helper lemmas live in Banyan/Lemmas/C18{Repair,Lattice,Cluster,Dedup,Map}.lean.
+
+Vocabulary
+  `Doc`, `Shard`           one stored revision (key, rev = ModRevision, created = CreateRevision, tags, del = delete time,
+                           0 = live) / the documents of one replica of one shard
+  `ver d = (rev, del)`     version; `vlt` = revision first, then delete time (live < tombstone < later tombstone)
+  `top s k`, `topVer`      newest document / version of key `k` in shard `s` (what repair and gossip compare)
+  `vjoin`, `ole`           join and order of `Option Ver` (nothing stored = bottom)
+  `applyOp/deleteOp/queryOp`   the liaison's Apply / Delete / Query over a `Cluster` with a reachability predicate
+  `repair`, `gossipLeaf`   `shard.repair`, one single-leaf gossip exchange
+  `AMap`, `AMap.step`      the specification: `Key → Option Value`
+-/
+import Banyan.Lemmas.C18Map
+import Banyan.Lemmas.C18Cluster
+
 namespace Banyan.C18
+
+/-! ## 1. apply: merge / replace -/
+
+def lookupTag (t : Tags) (k : String) : Option String := (t.find? fun x => x.1 == k).map Prod.snd
+
+/-- `apply_spec` (tags): after a merge, a tag key has the request's value if the request carries it, otherwise
+    the previous value; the request's tags come first, the kept ones follow in their previous order. -/
+theorem mergeTags_lookup (cur prev : Tags) (k : String) :
+    lookupTag (mergeTags cur prev) k = (lookupTag cur k).or (lookupTag prev k) := by
+  simp only [lookupTag, mergeTags, List.find?_append]
+  cases hc : cur.find? (fun x => x.1 == k) with
+  | some x => simp
+  | none =>
+    simp only [Option.map_none, Option.none_or, Option.or_eq_right_of_none]
+    congr 1
+    apply find?_filter_of_imp
+    intro x _ hx
+    have hx' : x.1 = k := by simpa using hx
+    have hn : ∀ c ∈ cur, ¬ (c.1 == k) = true := by
+      intro c hc'; exact List.find?_eq_none.1 hc c hc'
+    have : (cur.any fun c => c.1 == x.1) = false := by
+      rw [List.any_eq_false]; intro c hc'; rw [hx']; exact hn c hc'
+    simp [this]
+
+theorem mergeTags_order (cur prev : Tags) :
+    mergeTags cur prev = cur ++ prev.filter (fun t => !(cur.any fun c => c.1 == t.1)) := rfl
+
+/-- no tag key is duplicated by a merge. -/
+theorem mergeTags_nodup (cur prev : Tags) (hc : (cur.map Prod.fst).Nodup) (hp : (prev.map Prod.fst).Nodup) :
+    ((mergeTags cur prev).map Prod.fst).Nodup := by
+  simp only [mergeTags, List.map_append, List.nodup_append]
+  refine ⟨hc, (List.filter_sublist.map _).nodup hp, ?_⟩
+  intro a ha b hb
+  simp only [List.mem_map, List.mem_filter] at ha hb
+  obtain ⟨x, hx, rfl⟩ := ha
+  obtain ⟨y, ⟨_, hy⟩, rfl⟩ := hb
+  intro e
+  have : (cur.any fun c => c.1 == y.1) = true := List.any_eq_true.2 ⟨x, hx, by simp [e]⟩
+  simp [this] at hy
+
+/-- `apply_spec` (document): what `replaceProperty` writes. -/
+theorem apply_spec (k : String) (strat : Strategy) (tags : Tags) (now : Nat) (prev : Option Doc) :
+    let d := newDoc k strat tags now prev
+    d.key = k ∧ d.rev = now ∧ d.del = 0 ∧
+    d.created = (match prev with | some p => p.created | none => now) ∧
+    d.tags = (match strat, prev with
+      | .merge, some p => mergeTags tags p.tags
+      | _, _ => tags) := by
+  cases prev <;> cases strat <;> simp [newDoc]
+
+example : newDoc "k" .merge [("b", "3"), ("c", "4")] 20 (some ⟨"k", 10, 10, [("a", "1"), ("b", "2")], 0⟩)
+    = ⟨"k", 20, 10, [("b", "3"), ("c", "4"), ("a", "1")], 0⟩ := by decide
+
+/-! ## 2. the fault-free system is a map
+
+`Op`, `AMap.step` (the specification), `sysStep` (liaison Apply/Delete over a cluster in which every replica is
+reachable), `ClockOK` (the clock hypothesis) and `clockEnd` are defined in Banyan/Lemmas/C18Map.lean. -/
+
+/-- `map_refinement`: on `n ≥ 1` replicas that all receive every call, after ANY sequence of applies (merge or
+    replace) and deletes whose clock readings strictly increase, an unordered Query for any set of keys returns,
+    for every requested key, exactly the value the map holds (nothing for a deleted or never written key), each
+    key once — with the create revision, modification revision and tags of the map's value. -/
+theorem map_refinement (n : Nat) (hn : 0 < n) (ops : List Op) (hclk : ClockOK 0 ops) (keys : List String) (rr : Bool) :
+    let c := ops.foldl sysStep (emptyCluster n)
+    let m := ops.foldl AMap.step emptyMap
+    (∀ d, d ∈ (queryOp c allUp keys rr).2.props ↔ ∃ k ∈ keys, ∃ v, m k = some v ∧ d = docOf k v) ∧
+    ((queryOp c allUp keys rr).2.props.map (·.key)).Nodup :=
+  query_ok (run_ok ops _ _ 0 (emptyCluster_ok hn) hclk) keys rr
+
+/-- non-vacuity: a concrete history satisfies the clock hypothesis … -/
+example : ClockOK 0 [.apply "k" .merge [("a", "1")] 10, .delete "k", .apply "k" .replace [("b", "2")] 11] := by
+  simp [ClockOK]
+
+/-- … and the model computes what the map says on it. -/
+example :
+    (queryOp ([Op.apply "k" .merge [("a", "1")] 10, .apply "j" .merge [("a", "1")] 11, .delete "j",
+        .apply "k" .merge [("b", "2")] 12].foldl sysStep (emptyCluster 2)) allUp ["k", "j"] false).2.props
+      = [⟨"k", 12, 10, [("b", "2"), ("a", "1")], 0⟩] := by decide
+
+/-- the response of a fault-free Apply: `created` iff the map had no value; `tags_num` = number of tags stored. -/
+theorem apply_response {c : Cluster} {m : AMap} {b : Nat} (h : ClusterOK c m b) (k : String) (strat : Strategy)
+    (tags : Tags) (now : Nat) (hb : b < now) (ht : tags.isEmpty = false) :
+    (applyOp c allUp k strat tags now).2 = .ok (m k).isNone (applyVal m k strat tags now).tags.length :=
+  (applyOp_ok h k strat tags now hb ht).2
+
+/-- `modRevision_strict`: under the clock hypothesis an Apply stores `modRevision = now`, strictly above the
+    revision it replaces, and keeps the create revision (or sets it to `now` for a new or deleted key). -/
+theorem modRevision_strict (ops : List Op) (k : String) (s : Strategy) (tags : Tags) (now : Nat)
+    (hclk : ClockOK 0 ops) (hnow : clockEnd 0 ops < now) (ht : tags.isEmpty = false) :
+    let m := ops.foldl AMap.step emptyMap
+    ∃ v', (AMap.step m (.apply k s tags now)) k = some v' ∧ v'.rev = now ∧
+      (∀ v, m k = some v → v.rev < now ∧ v'.created = v.created) ∧ (m k = none → v'.created = now) := by
+  intro m
+  refine ⟨applyVal m k s tags now, by simp [AMap.step, ht, setKey], ?_, ?_, ?_⟩
+  · simp only [applyVal]; split <;> rfl
+  · intro v hv
+    have := amap_bound ops emptyMap 0 (by simp [emptyMap]) hclk k v hv
+    exact ⟨by omega, by simp [applyVal, hv]⟩
+  · intro hv; simp [applyVal, hv]
+
+example : ClockOK 0 [Op.apply "k" .merge [("a", "1")] 10] ∧ clockEnd 0 [Op.apply "k" .merge [("a", "1")] 10] < 11 := by
+  simp [ClockOK, clockEnd]
+
+/-- WITHOUT the clock hypothesis the refinement fails. Two applies that read the same nanosecond: the second
+    document has the id of the first, and the deferred clean-up of "older" properties tombstones it — the key
+    is gone although the map (and the client, who got two successes) has a value. -/
+theorem clock_tie_loses_property :
+    let ops := [Op.apply "k" .merge [("a", "1")] 10, .apply "k" .merge [("b", "1")] 10]
+    (queryOp (ops.foldl sysStep (emptyCluster 2)) allUp ["k"] false).2.props = [] ∧
+    (ops.foldl AMap.step emptyMap) "k" = some ⟨10, 10, [("b", "1"), ("a", "1")]⟩ := by decide
+
+/-- a second liaison whose clock is behind: the newer write gets the lower revision, the clean-up tombstones the
+    higher one, and the highest revision that de-duplication sees is a tombstone. -/
+theorem clock_skew_loses_property :
+    let ops := [Op.apply "k" .merge [("a", "1")] 10, .apply "k" .merge [("b", "1")] 5]
+    (queryOp (ops.foldl sysStep (emptyCluster 2)) allUp ["k"] false).2.props = [] ∧
+    ((ops.foldl AMap.step emptyMap) "k").isSome = true := by decide
+
+
+/-! ## 3. repair is a join; gossip converges -/
+
+/-- what an incoming document contributes to the newest state of key `k`. -/
+def contrib (d : Doc) (k : String) : Option Ver := if d.key = k then some (ver d) else none
+
+/-- `repair_join`: `shard.repair` moves the newest state of every key to the join with the incoming state. -/
+theorem repair_join (s : Shard) (d : Doc) (t : Nat) (k : String) :
+    topVer (repair s d t).1 k = vjoin (topVer s k) (contrib d k) := by
+  by_cases h : d.key = k
+  · subst h; simp only [contrib, if_true]; exact repair_topVer s d t
+  · simp only [contrib, h, if_false, vjoin_none_right]
+    exact repair_topVer_other s d t (Ne.symm h)
+
+/-- `repair_monotone`: the newest state of a key never goes down (revision first, then tombstone over live,
+    then later tombstone), whatever is sent. -/
+theorem repair_monotone (s : Shard) (d : Doc) (t : Nat) (k : String) :
+    ole (topVer s k) (topVer (repair s d t).1 k) := by
+  rw [repair_join]; exact ole_vjoin_left _ _
+
+/-- … and a document that is not newer than the stored newest one changes nothing at all, and the stored one is
+    handed back (`selfNewer`) for the sender to adopt. -/
+theorem repair_never_replaces_newer_or_equal (s : Shard) (d l : Doc) (t : Nat) (hl : top s d.key = some l)
+    (h : ¬ vlt (ver l) (ver d)) : repair s d t = (s, false, some l) := repair_refuse t hl h
+
+example : repair [⟨"k", 5, 5, [("a", "1")], 9⟩] ⟨"k", 5, 5, [("a", "1")], 0⟩ 77
+    = ([⟨"k", 5, 5, [("a", "1")], 9⟩], false, some ⟨"k", 5, 5, [("a", "1")], 9⟩) := by decide
+
+/-- `repair_idempotent`: repeating a repair changes nothing. -/
+theorem repair_idempotent (s : Shard) (d : Doc) (t t' : Nat) :
+    (repair (repair s d t).1 d t').1 = (repair s d t).1 := by
+  rcases repair_top_cases s d t with h | h
+  · rw [repair_refuse t' h (vlt_irrefl _)]
+  · cases hl : top s d.key with
+    | none => rw [(repair_empty t hl).1] at h; rw [hl] at h; cases h
+    | some l =>
+      by_cases hv : vlt (ver l) (ver d)
+      · rw [repair_refuse t' (repair_accept t hl hv).1 (vlt_irrefl _)]
+      · rw [repair_refuse t hl hv]
+        rw [repair_refuse t' hl hv]
+
+/-- `repair_commutative`: the newest state of every key after two repairs does not depend on their order
+    (nor on the delete times drawn while tombstoning older documents). -/
+theorem repair_commutative (s : Shard) (a b : Doc) (t₁ t₂ t₃ t₄ : Nat) (k : String) :
+    topVer (repair (repair s a t₁).1 b t₂).1 k = topVer (repair (repair s b t₃).1 a t₄).1 k := by
+  simp only [repair_join]
+  rw [vjoin_assoc, vjoin_assoc, vjoin_comm (contrib a k)]
+
+/-- Fairness: for the key under consideration every two replicas take part in at least one gossip exchange with
+    each other (in either role, anywhere in the sequence). -/
+def Fair (n : Nat) (k : String) (ops : List COp) : Prop :=
+  ∀ i j, i < n → j < n → i ≠ j → COp.g i j k ∈ ops ∨ COp.g j i k ∈ ops
+
+/-- `gossip_converges`: for ANY initial contents of the replicas (each may have missed arbitrary updates and
+    deletions) and ANY sequence of single-leaf gossip exchanges and one-way repairs over any keys that is fair for
+    key `k`, every replica ends with the same newest state of `k`: the join (highest revision; tombstone over
+    live; later tombstone) of the initial newest states. -/
+theorem gossip_converges (c : Cluster) (k : String) (ops : List COp)
+    (hvalid : ∀ op ∈ ops, op.valid c.reps.length) (hfair : Fair c.reps.length k ops) :
+    ∀ i, i < c.reps.length → tvf (crun c ops) k i = maxOver (tvf c k) c.reps.length := by
+  intro i hi
+  rw [(crun_abs k ops c hvalid).1]
+  apply abstract_converges c.reps.length (tvf c k) _ _ _ i hi
+  · intro j hj
+    simp [tvf, topd, List.getElem?_eq_none hj]
+  · intro a b ha hb hab
+    rcases hfair a b ha hb hab with h | h
+    · left; exact List.mem_map.2 ⟨_, h, by simp [absOp]⟩
+    · right; exact List.mem_map.2 ⟨_, h, by simp [absOp]⟩
+
+/-- two newest documents of `k` in the cluster with the same version are the same document (true of every state
+    the system reaches from empty replicas with a strictly increasing clock: a revision identifies one apply,
+    a delete time one deletion event). -/
+def CoherentTops (c : Cluster) (k : String) : Prop :=
+  ∀ i j d e, topd c k i = some d → topd c k j = some e → ver d = ver e → d = e
+
+example : CoherentTops { reps := [[⟨"k", 10, 10, [("a", "1")], 3⟩], [⟨"k", 10, 10, [("a", "1")], 3⟩, ⟨"k", 4, 4, [], 2⟩]], clk := 9 } "k" := by
+  intro i j d e hd he _
+  have hi : i = 0 ∨ i = 1 ∨ 2 ≤ i := by omega
+  have hj : j = 0 ∨ j = 1 ∨ 2 ≤ j := by omega
+  have t0 : topd { reps := [[⟨"k", 10, 10, [("a", "1")], 3⟩], [⟨"k", 10, 10, [("a", "1")], 3⟩, ⟨"k", 4, 4, [], 2⟩]], clk := 9 } "k" 0
+      = some ⟨"k", 10, 10, [("a", "1")], 3⟩ := by decide
+  have t1 : topd { reps := [[⟨"k", 10, 10, [("a", "1")], 3⟩], [⟨"k", 10, 10, [("a", "1")], 3⟩, ⟨"k", 4, 4, [], 2⟩]], clk := 9 } "k" 1
+      = some ⟨"k", 10, 10, [("a", "1")], 3⟩ := by decide
+  have t2 : ∀ n, 2 ≤ n → topd { reps := [[⟨"k", 10, 10, [("a", "1")], 3⟩], [⟨"k", 10, 10, [("a", "1")], 3⟩, ⟨"k", 4, 4, [], 2⟩]], clk := 9 } "k" n
+      = none := by
+    intro n hn
+    simp only [topd]
+    rw [List.getElem?_eq_none (by simpa using hn)]
+  rcases hi with rfl | rfl | hi <;> rcases hj with rfl | rfl | hj <;>
+    simp_all
+
+/-- `gossip_converges_docs`: … and the newest DOCUMENTS (value or tombstone, with tags and create revision) are
+    then identical on all replicas. -/
+theorem gossip_converges_docs (c : Cluster) (k : String) (ops : List COp)
+    (hvalid : ∀ op ∈ ops, op.valid c.reps.length) (hfair : Fair c.reps.length k ops) (hc : CoherentTops c k) :
+    ∀ i j, i < c.reps.length → j < c.reps.length → topd (crun c ops) k i = topd (crun c ops) k j := by
+  intro i j hi hj
+  have e1 := gossip_converges c k ops hvalid hfair i hi
+  have e2 := gossip_converges c k ops hvalid hfair j hj
+  obtain ⟨i', hi'⟩ := (crun_abs k ops c hvalid).2 i
+  obtain ⟨j', hj'⟩ := (crun_abs k ops c hvalid).2 j
+  have e : (topd (crun c ops) k i).map ver = (topd (crun c ops) k j).map ver := by
+    simp only [tvf] at e1 e2; rw [e1, e2]
+  cases hd : topd (crun c ops) k i with
+  | none =>
+    rw [hd] at e
+    cases he : topd (crun c ops) k j with
+    | none => rfl
+    | some x => rw [he] at e; simp at e
+  | some d =>
+    rw [hd] at e
+    cases he : topd (crun c ops) k j with
+    | none => rw [he] at e; simp at e
+    | some x =>
+      rw [he] at e
+      simp at e
+      rw [hc i' j' d x (by rw [← hi', hd]) (by rw [← hj', he]) e]
+
+
+/-- non-vacuity of `gossip_converges`: a replica that missed a deletion, one that saw it, an empty one;
+    three exchanges, each pair once. -/
+def exampleCluster : Cluster :=
+  { reps := [[⟨"k", 10, 10, [("a", "1")], 0⟩], [⟨"k", 10, 10, [("a", "1")], 3⟩], []], clk := 50 }
+
+def exampleOps : List COp := [.g 2 0 "k", .r 0 1 "j", .g 1 2 "k", .g 0 1 "k"]
+
+example : (∀ op ∈ exampleOps, op.valid exampleCluster.reps.length) ∧ Fair exampleCluster.reps.length "k" exampleOps := by
+  constructor
+  · intro op hop
+    simp only [exampleOps, List.mem_cons, List.mem_nil_iff, or_false] at hop
+    rcases hop with rfl | rfl | rfl | rfl <;> simp [COp.valid, exampleCluster]
+  · intro i j hi hj hij
+    simp only [exampleCluster, List.length_cons, List.length_nil] at hi hj
+    have hi' : i = 0 ∨ i = 1 ∨ i = 2 := by omega
+    have hj' : j = 0 ∨ j = 1 ∨ j = 2 := by omega
+    rcases hi' with rfl | rfl | rfl <;> rcases hj' with rfl | rfl | rfl <;> simp [exampleOps] at hij ⊢
+
+example : (List.range 3).map (tvf (crun exampleCluster exampleOps) "k") = [some (10, 3), some (10, 3), some (10, 3)] := by
+  decide
+
+/-! ## 4. query-time de-duplication -/
+
+/-- `dedup_spec` (`simpleDedupWithoutSort`): whatever the order in which the nodes' answers are visited, the
+    result has exactly one entry per key that occurs in the answers, and for each entry: its version
+    `(rev, deleteTime)` is that of some answer of the key, its content is that of an answer with that key and
+    revision, and no answer of the key is newer (`GoodEntry`). -/
+theorem dedup_spec (items : List (Nat × Doc)) :
+    ((simpleDedup items).map (fun e => e.doc.key)).Nodup ∧
+    (∀ e ∈ simpleDedup items, GoodEntry items e) ∧
+    (∀ it ∈ items, ∃ e ∈ simpleDedup items, e.doc.key = it.2.key) :=
+  ⟨(simpleDedup_inv items).nodup, (simpleDedup_inv items).good, (simpleDedup_inv items).covered⟩
+
+/-- `dedup_spec` (`sortedQueryWithDedup`): for ANY arrival order of the k-way merge and either direction, the
+    result buffer is a permutation of entries that — sort value annotation aside — are exactly the entries
+    `simpleDedupWithoutSort` computes on the same answers: both variants pick the same highest revision per key. -/
+theorem dedup_spec_sorted (desc : Bool) (items : List (Nat × Doc × Option String)) :
+    ∃ seen : List Entry, (sortedDedup desc items).Perm seen ∧ seen.map strip = simpleDedup (items.map dropSort) := by
+  have h := sortedDedup_inv desc items
+  exact ⟨_, h.buf, h.seen⟩
+
+/-- consequence: every entry of the sorted result is a good entry for its key, and every key is present once. -/
+theorem dedup_spec_sorted_good (desc : Bool) (items : List (Nat × Doc × Option String)) :
+    (∀ e ∈ sortedDedup desc items, GoodEntry (items.map dropSort) e) ∧
+    ((sortedDedup desc items).map (fun e => e.doc.key)).Nodup := by
+  obtain ⟨seen, hp, hs⟩ := dedup_spec_sorted desc items
+  have inv := simpleDedup_inv (items.map dropSort)
+  constructor
+  · intro e he
+    have he' : strip e ∈ simpleDedup (items.map dropSort) := by
+      rw [← hs]; exact List.mem_map.2 ⟨e, hp.subset he, rfl⟩
+    exact (inv.good _ he').of_doc rfl
+  · have : (seen.map (fun e => e.doc.key)).Nodup := by
+      rw [← keys_strip, hs]; exact inv.nodup
+    exact (hp.map _).nodup_iff.2 this
+
+example : (sortedDedup false [(0, ⟨"k", 5, 0, [], 0⟩, some "b"), (1, ⟨"j", 2, 0, [], 0⟩, some "c"),
+      (1, ⟨"k", 5, 0, [], 9⟩, some "b"), (2, ⟨"k", 7, 0, [], 0⟩, some "a")]).map (fun e => (e.doc.key, e.doc.rev, e.doc.del))
+    = [("k", 7, 0), ("j", 2, 0)] := by decide
+
+/-- the order of the result buffer (ascending / descending by sort value, documents without the tag last) is
+    checked on every run against the implementation but not proved about the model. -/
+def SortedDedupOrderedStatement : Prop :=
+  ∀ (desc : Bool) (items : List (Nat × Doc × Option String)),
+    List.Pairwise (fun a b => svBefore desc b.sorted a.sorted = false) (sortedDedup desc items)
+
+/-! ## 5. the code at the pinned commit (finding F18a) -/
+
+/-- `shard.repair` as written: a replica that missed a deletion overwrites the tombstone of the same revision —
+    the newest state goes DOWN (not monotone). -/
+theorem repairLegacy_resurrects :
+    let s : Shard := [⟨"k", 5, 5, [("a", "1")], 9⟩]
+    (top s "k").map (·.del) = some 9 ∧
+    (top (repairLegacy s ⟨"k", 5, 5, [("a", "1")], 0⟩ 77).1 "k").map (·.del) = some 0 := by decide
+
+/-- … and the result of two repairs depends on their order (not commutative): the sender wins. -/
+theorem repairLegacy_not_commutative :
+    let a : Doc := ⟨"k", 5, 5, [("a", "1")], 0⟩
+    let b : Doc := ⟨"k", 5, 5, [("a", "1")], 9⟩
+    (top (repairLegacy (repairLegacy [] a 70).1 b 71).1 "k").map (·.del) = some 9 ∧
+    (top (repairLegacy (repairLegacy [] b 70).1 a 71).1 "k").map (·.del) = some 0 := by decide
+
+/-- … and a tombstone repaired onto the live document of the same revision leaves two documents with one id. -/
+theorem repairLegacy_duplicates_id :
+    ((repairLegacy [⟨"k", 5, 5, [("a", "1")], 0⟩] ⟨"k", 5, 5, [("a", "1")], 9⟩ 77).1.map Doc.id)
+      = [("k", 5), ("k", 5)] := by decide
+
+/-- the unsorted de-duplication as written: with the same revision live on one node and deleted on another, the
+    answer depends on the (random) iteration order of the node map. -/
+theorem simpleDedupLegacy_order_dependent :
+    let live : Doc := ⟨"k", 5, 5, [("a", "1")], 0⟩
+    let dead : Doc := ⟨"k", 5, 5, [("a", "1")], 9⟩
+    (simpleDedupLegacy [(0, live), (1, dead)]).map (·.doc.del) = [0] ∧
+    (simpleDedupLegacy [(1, dead), (0, live)]).map (·.doc.del) = [9] ∧
+    (simpleDedup [(0, live), (1, dead)]).map (·.doc.del) = [9] ∧
+    (simpleDedup [(1, dead), (0, live)]).map (·.doc.del) = [9] := by decide
+
 end Banyan.C18
